@@ -18,7 +18,7 @@ RULE = (
 ASSUMPTIONS = ["depth = number of operations on the longest chain through quantum and classical wires; unitary count = non-identity "
                "operations among H,P,Pdag,X,Y,Z,CNOT after expanding wrappers (circuits with CZ are kept out of that sub-check: whether "
                "CZ counts is not stated); measurement count = number of measure-and-reset operations"]
-REQUIRED_CLASSES = {"photonic": ["emitters>=2", "ee_cnot", "two_resets_one_emitter", "wrapper_with_identity", "idle_emitter", "no_mcr"]}
+REQUIRED_CLASSES = {"photonic": ["emitters>=2", "ee_cnot", "two_resets_one_emitter", "wrapper_with_identity", "idle_emitter", "no_mcr", "register_added_explicitly"]}
 
 
 def depths(desc, expanded=False, drop_identity=False):
@@ -78,8 +78,15 @@ def check(case, sub="photonic"):
 
     desc = case["circ"]
     circ = gc.build(desc)
+    extra = case.get("extra_reg")
+    if extra:
+        # a register added explicitly after construction (idle): it counts like any other register
+        guarded(sub, "add_register", {"e": circ.add_emitter_register, "p": circ.add_photonic_register, "c": circ.add_classical_register}[extra])
+        desc = dict(desc, **{"n" + extra: desc["n" + extra] + 1})
     q = quantities(desc)
     cl = classes(desc)
+    if extra:
+        cl.append("register_added_explicitly")
     before = [gc.name_of(o) for o in circ.sequence()]
     pen = (lambda x: 2 * x + 1)
     has_cz = any(d[0] == "CZ" for d in desc["ops"])
@@ -209,11 +216,13 @@ def st_photonic(draw):
 
 
 def strat_generic(tier):
-    return gc.st_circuit(max_q=5, max_len=25, max_c=2).map(lambda c: {"circ": c, "generic": True})
+    return st.tuples(gc.st_circuit(max_q=5, max_len=25, max_c=2), st.sampled_from([None, None, "e", "p", "c"])).map(
+        lambda t: {"circ": t[0], "generic": True, "extra_reg": t[1]})
 
 
 SUBS = [
-    Sub("photonic", check, strategy=lambda tier: st_photonic(), n={"quick": 120, "thorough": 2500}),
+    Sub("photonic", check, strategy=lambda tier: st.tuples(st_photonic(), st.sampled_from([None, None, "e", "p", "c"])).map(
+        lambda t: dict(t[0], extra_reg=t[1])), n={"quick": 120, "thorough": 2500}),
     Sub("generic", lambda c: check(c, "generic"), strategy=strat_generic, n={"quick": 60, "thorough": 1000},
         doc="generic circuits: depth, per-register depth, emitter count, e-e CNOT count, unitary count (CZ-free), max emitter depth"),
 ]
